@@ -50,4 +50,40 @@ theorem importAll_acc {offs : List Nat} {inds : List (List Nat)} {vals : List Na
     rw [hlen c hc] at h1
     simp only [List.map_cons, importAll, h1, ih (fun x hx => h x (by simp [hx]))]
 
+/-- The importers of the driver as a family of append homomorphisms: `F c D` is the state of the importer of file column `c`
+    once it has consumed the entries `D`. One `import_part` call on staging buffers whose column `c` holds the entries `E`
+    (strictly inside the column's value budget, every entry acceptable to the importer: `good c`) leaves the importer in the
+    state `F c (D ++ E)` — whatever (acceptable) `D` was, so the result of a sequence of calls depends only on the concatenation of the
+    blocks, not on where they were cut. -/
+def ImpHom (ncols : Nat) (F : Nat → List Bytes → Imp) (good : Nat → Bytes → Prop) : Prop :=
+  ∀ (offs : List Nat) (inds : List (List Nat)) (vals : List Nat) (maxrow c : Nat) (D E : List Bytes), c < ncols →
+    Shape ncols maxrow offs inds vals → ColOK offs inds vals c E →
+    offAt offs c + E.flatten.length < offAt offs (c + 1) → (∀ cell ∈ D, good c cell) → (∀ cell ∈ E, good c cell) →
+    Imp.importPart (F c D) inds vals offs c E.length = .ok (F c (D ++ E))
+
+/-- the indexed string importer is such a family (every entry is acceptable) -/
+theorem impHom_indexed (ncols : Nat) : ImpHom ncols (fun _ => fieldOf') (fun _ _ => True) := by
+  intro offs inds vals maxrow c D E hc hsh hcol _ _ _
+  exact importPart_acc hcol (offs_get hsh.offsLen (by omega))
+
+theorem importAll_hom {offs : List Nat} {inds : List (List Nat)} {vals : List Nat} {ncols maxrow n : Nat}
+    {F : Nat → List Bytes → Imp} {good : Nat → Bytes → Prop} (hhom : ImpHom ncols F good)
+    {D E : Nat → List Bytes} (hsh : Shape ncols maxrow offs inds vals)
+    (hcols : ∀ c, c < ncols → ColOK offs inds vals c (E c))
+    (hcaps : ∀ c, c < ncols → offAt offs c + (E c).flatten.length < offAt offs (c + 1))
+    (hlen : ∀ c, c < ncols → (E c).length = n) :
+    ∀ (im : List Nat), (∀ c ∈ im, c < ncols) → (∀ c ∈ im, ∀ cell ∈ D c, good c cell) →
+      (∀ c ∈ im, ∀ cell ∈ E c, good c cell) →
+      importAll inds vals offs n im (im.map (fun c => F c (D c))) = .ok (im.map (fun c => F c (D c ++ E c))) := by
+  intro im
+  induction im with
+  | nil => intro _ _ _; rfl
+  | cons c im ih =>
+    intro h hd hg
+    have hc := h c (by simp)
+    have h1 := hhom offs inds vals maxrow c (D c) (E c) hc hsh (hcols c hc) (hcaps c hc) (hd c (by simp)) (hg c (by simp))
+    rw [hlen c hc] at h1
+    simp only [List.map_cons, importAll, h1,
+      ih (fun x hx => h x (by simp [hx])) (fun x hx => hd x (by simp [hx])) (fun x hx => hg x (by simp [hx]))]
+
 end Exetera.Csv
